@@ -341,6 +341,9 @@ type stackFx struct {
 	basev ssa.Value // the interpreter pointer in fn
 	base  string
 	busy  map[*ssa.Function]bool
+	// nilResult: calls whose result with the given index is known to be nil on the way of interest
+	// (the call is what a normal return of the function hands on: `return helper(intp)`)
+	nilResult map[*ssa.Call]int
 }
 
 func (c *Ctx) newStackFx(fn *ssa.Function, basev ssa.Value, busy map[*ssa.Function]bool) *stackFx {
@@ -372,7 +375,8 @@ func unionInts(sets ...[]int64) []int64 {
 // atBlockEnd: the possible values of len(Stack)@end of b − len(Stack)@entry.
 func (sx *stackFx) atBlockEnd(b *ssa.BasicBlock, depth int) ([]int64, bool) {
 	if sx.field == "" {
-		return []int64{0}, true
+		// fn itself never touches the stack: only the functions it calls can (ext_y3.go)
+		return sx.untracked(b, len(b.Instrs), b, depth, map[*ssa.BasicBlock]bool{})
 	}
 	ep := sx.fi.outEpoch[b][sx.field]
 	if ep == "" {
@@ -474,7 +478,13 @@ func (sx *stackFx) throughCall(call *ssa.Call, ctx *ssa.BasicBlock, depth int) (
 	if param == nil {
 		return nil, false
 	}
-	pre, ok := sx.ofEpoch(sx.fi.callEpoch[call][sx.field], call.Block(), depth+1)
+	var pre []int64
+	var ok bool
+	if sx.field == "" {
+		pre, ok = sx.untracked(call.Block(), instrIndex(call), ctx, depth+1, map[*ssa.BasicBlock]bool{})
+	} else {
+		pre, ok = sx.ofEpoch(sx.fi.callEpoch[call][sx.field], call.Block(), depth+1)
+	}
 	if !ok {
 		return nil, false
 	}
@@ -544,6 +554,10 @@ func (sx *stackFx) throughCall(call *ssa.Call, ctx *ssa.BasicBlock, depth int) (
 			}
 		}
 	}
+	if i, ok := sx.nilResult[call]; ok {
+		t := true
+		kn = append(kn, known{idx: i, isNil: &t})
+	}
 	var all []int64
 	n := 0
 	for _, r := range returns(g) {
@@ -553,6 +567,15 @@ func (sx *stackFx) throughCall(call *ssa.Call, ctx *ssa.BasicBlock, depth int) (
 				continue
 			}
 			for _, v := range retValues(r, k.idx) {
+				if k.isNil != nil && *k.isNil {
+					// the callee hands on the result of a further call: that one is nil too
+					if c2, i2, ok := tailCallOf(v, r); ok {
+						if sub.nilResult == nil {
+							sub.nilResult = map[*ssa.Call]int{}
+						}
+						sub.nilResult[c2] = i2
+					}
+				}
 				if k.isNil != nil {
 					if *k.isNil && sx.c.definitelyNonNil(v, 0) {
 						compatible = false
